@@ -689,11 +689,24 @@ Fixpoint val_eqb (a b : val) : bool :=
   | _, _ => false
   end.
 
-(** * The process-wide cache of the [date] filter   misc.py:63-64
-    [functools.lru_cache] looks a call up by (dat, fmt) with [==] and [hash];
-    Markup('x') == 'x' and both hash alike, so the key ignores the Markup bit
-    of the format, while the cached RESULT is Markup exactly when the format
-    of the call that filled the entry was Markup (misc.py:113-115). *)
+(** * The [date] filter   misc.py:63-115 (after fix c40f103: no cache)
+    The formatted text is Markup exactly when the format string is Markup
+    (misc.py:111-113); an input that cannot be parsed as a date is returned
+    unchanged as a plain str.  [strftime dat fmt] stands for dateutil parsing +
+    datetime.strftime (None: not a date). *)
+Definition date_filter (strftime : str -> str -> option str) (dat : str) (fmt : mstr) : mstr :=
+  match strftime dat (snd fmt) with
+  | Some r => (fst fmt, r)
+  | None => (false, dat)
+  end.
+
+(** * HISTORICAL — the process-wide cache that wrapped [date] before fix c40f103
+    (DESIGN 10 row 32).  Kept as the formal record of the defect; the harness
+    re-runs its witness on every run so that a reintroduction is reported.
+    [functools.lru_cache] looked a call up by (dat, fmt) with [==] and [hash];
+    Markup('x') == 'x' and both hash alike, so the key ignored the Markup bit
+    of the format, while the cached RESULT was Markup exactly when the format
+    of the call that filled the entry was Markup. *)
 Definition date_key := (str * str)%type.      (* texts of (dat, fmt) *)
 Definition date_cache := list (date_key * mstr).
 Definition key_eqb (a b : date_key) : bool :=
